@@ -101,3 +101,668 @@ Proof.
     induction 1 as [r Hr|p c Hp IHp Hc Hsp]; [by apply H1|].
     apply (H2 c p); [by apply elem_of_elements|done|done].
 Qed.
+(** * Well-formedness facts *)
+
+Definition ins_in_range (U : gmap N tx) : Prop :=
+  ∀ c tc op p, U !! c = Some tc → op ∈ t_ins tc → U !! op.1 = Some p →
+               (N.to_nat op.2 < length (t_outs p))%nat.
+
+Lemma ins_in_range_of_wf U : wf_universe U = true → ins_in_range U.
+Proof.
+  unfold wf_universe, ins_in_range_b. intros Hwf c tc op p Hc Hop Hp.
+  apply andb_prop in Hwf as [_ Hwf].
+  rewrite forallb_forall in Hwf.
+  assert (Hin : In (c, tc) (map_to_list U)).
+  { apply elem_of_list_In. by apply elem_of_map_to_list. }
+  apply Hwf in Hin. rewrite forallb_forall in Hin.
+  apply elem_of_list_In in Hop. apply Hin in Hop. simpl in Hop.
+  rewrite Hp in Hop. by apply bool_decide_eq_true in Hop.
+Qed.
+
+Lemma wf_universe_tx U k t : wf_universe U = true → U !! k = Some t → wf_tx k t = true.
+Proof.
+  unfold wf_universe. intros Hwf Hk.
+  apply andb_prop in Hwf as [Hwf _]. apply andb_prop in Hwf as [_ Hwf].
+  rewrite forallb_forall in Hwf.
+  apply (Hwf (k, t)). apply elem_of_list_In. by apply elem_of_map_to_list.
+Qed.
+
+Lemma wf_tx_unpack k t : wf_tx k t = true →
+  t_id t = k ∧ NoDup (t_ins t) ∧ NoDup (map fst (t_creds t)) ∧
+  (∀ ic, ic ∈ t_creds t → (N.to_nat ic.1 < length (t_outs t))%nat) ∧
+  (∀ op, op ∈ t_ins t → (op.1 < k)%N).
+Proof.
+  unfold wf_tx. rewrite !andb_true_iff. intros [[[[[[H1 H2] H3] H4] H5] H6] H7].
+  apply bool_decide_eq_true in H1, H2, H4.
+  rewrite forallb_forall in H5, H6.
+  repeat split; try done.
+  - intros ic Hic. apply elem_of_list_In in Hic. apply H5 in Hic.
+    by apply bool_decide_eq_true in Hic.
+  - intros op Hop. apply elem_of_list_In in Hop. apply H6 in Hop.
+    by apply bool_decide_eq_true in Hop.
+Qed.
+
+Lemma elem_of_indices {A} (l : list A) (i : N) : i ∈ indices l ↔ (N.to_nat i < length l)%nat.
+Proof.
+  unfold indices. rewrite elem_of_list_In, in_map_iff. split.
+  - intros (x & <- & Hx). apply in_seq in Hx. lia.
+  - intros Hi. exists (N.to_nat i). split; [lia|]. apply in_seq. lia.
+Qed.
+
+(** * The three mempool buckets, relative to an "alive" set *)
+
+(** Everything except [unmined], [unmined_credits], [unmined_inputs] is the same. *)
+Definition same_rest (s s' : store) : Prop :=
+  blocks s' = blocks s ∧ txrecs s' = txrecs s ∧ credits s' = credits s ∧
+  unspent s' = unspent s ∧ debits s' = debits s ∧ locked s' = locked s ∧ bal s' = bal s.
+
+Lemma same_rest_refl s : same_rest s s.
+Proof. by repeat split. Qed.
+Lemma same_rest_trans s1 s2 s3 : same_rest s1 s2 → same_rest s2 s3 → same_rest s1 s3.
+Proof. unfold same_rest. intros (?&?&?&?&?&?&?) (?&?&?&?&?&?&?). repeat split; congruence. Qed.
+Lemma same_rest_set_unmined f s : same_rest s (set_unmined f s).
+Proof. by repeat split. Qed.
+Lemma same_rest_set_unmined_credits f s : same_rest s (set_unmined_credits f s).
+Proof. by repeat split. Qed.
+Lemma same_rest_set_unmined_inputs f s : same_rest s (set_unmined_inputs f s).
+Proof. by repeat split. Qed.
+Lemma same_rest_delete_unmined_input op h s : same_rest s (delete_unmined_input op h s).
+Proof.
+  unfold delete_unmined_input.
+  destruct (unmined_inputs s !! op) as [[|x l]|]; try apply same_rest_refl.
+  destruct (filter _ (x :: l)); apply same_rest_set_unmined_inputs.
+Qed.
+Lemma same_rest_put_unmined_input op h s : same_rest s (put_unmined_input op h s).
+Proof. apply same_rest_set_unmined_inputs. Qed.
+
+Lemma delete_unmined_input_unmined op h s : unmined (delete_unmined_input op h s) = unmined s.
+Proof.
+  unfold delete_unmined_input.
+  destruct (unmined_inputs s !! op) as [[|x l]|]; try done.
+  by destruct (filter _ (x :: l)).
+Qed.
+Lemma delete_unmined_input_unmined_credits op h s :
+  unmined_credits (delete_unmined_input op h s) = unmined_credits s.
+Proof.
+  unfold delete_unmined_input.
+  destruct (unmined_inputs s !! op) as [[|x l]|]; try done.
+  by destruct (filter _ (x :: l)).
+Qed.
+
+(** [unmined_inputs] enumerates exactly the relation [R] (outpoint, spender). *)
+Definition MIinv (s : store) (R : N * N → N → Prop) : Prop :=
+  (∀ op l, unmined_inputs s !! op = Some l → l ≠ [] ∧ NoDup l ∧ ∀ u, u ∈ l ↔ R op u) ∧
+  (∀ op u, R op u → is_Some (unmined_inputs s !! op)).
+
+Lemma MIinv_ext s (R R' : N * N → N → Prop) :
+  (∀ op u, R op u ↔ R' op u) → MIinv s R → MIinv s R'.
+Proof.
+  intros HR [Hs Hc]. split.
+  - intros op l Hl. destruct (Hs op l Hl) as (H1 & H2 & H3).
+    split; [done|]. split; [done|]. intros u. by rewrite H3.
+  - intros op u Hu. apply (Hc op u). by apply HR.
+Qed.
+
+Lemma MIinv_same_mi s s' R : unmined_inputs s' = unmined_inputs s → MIinv s R → MIinv s' R.
+Proof. unfold MIinv. intros ->. done. Qed.
+
+Lemma MIinv_delete s (R : N * N → N → Prop) (op0 : N * N) (h : N) :
+  MIinv s R →
+  MIinv (delete_unmined_input op0 h s) (λ op u, R op u ∧ ¬ (op = op0 ∧ u = h)).
+Proof.
+  intros [Hs Hc]. unfold delete_unmined_input.
+  destruct (unmined_inputs s !! op0) as [l0|] eqn:Hl0.
+  - destruct (Hs op0 l0 Hl0) as (Hne0 & Hnd0 & Hel0).
+    destruct l0 as [|x0 l0']; [done|].
+    destruct (filter _ (x0 :: l0')) as [|y ys] eqn:Hf.
+    + (* key deleted *)
+      split; simpl.
+      * intros op l Hl. apply lookup_delete_Some in Hl as [Hne Hl].
+        destruct (Hs op l Hl) as (H1 & H2 & H3).
+        split; [done|]. split; [done|]. intros u. rewrite H3. naive_solver.
+      * intros op u [HR Hn]. destruct (decide (op = op0)) as [->|Hne].
+        -- exfalso. assert (Hu : u ∈ @nil N).
+           { rewrite <- Hf. apply elem_of_list_filter. split; [|by apply Hel0].
+             intros ->. by apply Hn. }
+           by apply elem_of_nil in Hu.
+        -- rewrite lookup_delete_ne by done. by apply (Hc op u).
+    + (* filtered list stored *)
+      split; simpl.
+      * intros op l Hl. destruct (decide (op = op0)) as [->|Hne].
+        -- rewrite lookup_insert in Hl. injection Hl as <-.
+           split; [done|]. rewrite <- Hf. split; [by apply NoDup_filter|].
+           intros u. rewrite elem_of_list_filter, Hel0. naive_solver.
+        -- rewrite lookup_insert_ne in Hl by done.
+           destruct (Hs op l Hl) as (H1 & H2 & H3).
+           split; [done|]. split; [done|]. intros u. rewrite H3. naive_solver.
+      * intros op u [HR Hn]. destruct (decide (op = op0)) as [->|Hne].
+        -- rewrite lookup_insert. by eexists.
+        -- rewrite lookup_insert_ne by done. by apply (Hc op u).
+  - split.
+    + intros op l Hl. destruct (Hs op l Hl) as (H1 & H2 & H3).
+      split; [done|]. split; [done|]. intros u. rewrite H3.
+      assert (op ≠ op0) by congruence. naive_solver.
+    + intros op u [HR _]. by apply (Hc op u).
+Qed.
+
+Lemma MIinv_delete_list (l : list (N * N)) (h : N) : ∀ s (R : N * N → N → Prop),
+  MIinv s R →
+  MIinv (foldl (λ s' op, delete_unmined_input op h s') s l) (λ op u, R op u ∧ ¬ (op ∈ l ∧ u = h)).
+Proof.
+  induction l as [|op0 l IH]; intros s R HM; simpl.
+  - eapply MIinv_ext; [|exact HM]. intros op u. rewrite elem_of_nil. naive_solver.
+  - eapply MIinv_ext; [|apply IH, MIinv_delete, HM].
+    intros op u. simpl. rewrite elem_of_cons. naive_solver.
+Qed.
+
+Lemma MIinv_put s (R : N * N → N → Prop) (op0 : N * N) (h : N) :
+  MIinv s R → ¬ R op0 h →
+  MIinv (put_unmined_input op0 h s) (λ op u, R op u ∨ (op = op0 ∧ u = h)).
+Proof.
+  intros [Hs Hc] Hn. unfold put_unmined_input. split; simpl.
+  - intros op l Hl. destruct (decide (op = op0)) as [->|Hne].
+    + rewrite lookup_insert in Hl. injection Hl as <-.
+      destruct (unmined_inputs s !! op0) as [l0|] eqn:Hl0; simpl.
+      * destruct (Hs op0 l0 Hl0) as (H1 & H2 & H3).
+        split; [by destruct l0|]. split.
+        -- apply NoDup_app. split; [done|]. split; [|apply NoDup_singleton].
+           intros x Hx Hx'. apply elem_of_list_singleton in Hx' as ->. by apply Hn, H3.
+        -- intros u. rewrite elem_of_app, elem_of_list_singleton, H3. naive_solver.
+      * split; [done|]. split; [apply NoDup_singleton|].
+        intros u. rewrite elem_of_list_singleton. split; [naive_solver|].
+        intros [HR|[_ ->]]; [|done]. apply Hc in HR. rewrite Hl0 in HR. by destruct HR.
+    + rewrite lookup_insert_ne in Hl by done.
+      destruct (Hs op l Hl) as (H1 & H2 & H3).
+      split; [done|]. split; [done|]. intros u. rewrite H3. naive_solver.
+  - intros op u Hu. destruct (decide (op = op0)) as [->|Hne].
+    + rewrite lookup_insert. by eexists.
+    + rewrite lookup_insert_ne by done. destruct Hu as [Hu|[? _]]; [|done]. by apply (Hc op u).
+Qed.
+
+(** * Reachability over a set of alive transactions *)
+Section reach.
+  Context (U : gmap N tx).
+
+  Inductive reach (A : gset N) (roots : list N) : N → Prop :=
+  | reach_root r : r ∈ roots → reach A roots r
+  | reach_step p c : reach A roots p → c ∈ A → spends_output_of U c p = true → reach A roots c.
+
+  Lemma depends_on_reach F roots c : depends_on U F roots c ↔ reach (f_unconf F) roots c.
+  Proof.
+    split.
+    - induction 1 as [r Hr|p c' Hp IH Hc Hsp]; [by apply reach_root|by eapply reach_step].
+    - induction 1 as [r Hr|p c' Hp IH Hc Hsp]; [by apply dep_root|by eapply dep_step].
+  Qed.
+
+  Lemma reach_dec A roots c : reach A roots c ∨ ¬ reach A roots c.
+  Proof.
+    set (F := {| f_conf := ∅; f_unconf := A; f_leases := ∅ |}).
+    pose proof (descendants_ok U F roots c) as Hd. simpl in Hd.
+    rewrite depends_on_reach in Hd. simpl in Hd.
+    destruct (decide (c ∈ descendants U (S (length (elements A))) (elements A) roots)) as [Hin|Hin].
+    - left. by apply Hd.
+    - right. intros Hr. by apply Hin, Hd.
+  Qed.
+
+  Lemma reach_mono A A' roots roots' c :
+    A ⊆ A' → (∀ r, r ∈ roots → r ∈ roots') → reach A roots c → reach A' roots' c.
+  Proof.
+    intros HA Hr. induction 1 as [r Hr'|p c' Hp IH Hc Hsp].
+    - apply reach_root. by apply Hr.
+    - eapply reach_step; [exact IH| |done]. by apply HA.
+  Qed.
+
+  Lemma reach_trans A roots roots' c :
+    (∀ r, r ∈ roots' → reach A roots r) → reach A roots' c → reach A roots c.
+  Proof.
+    intros Hr. induction 1 as [r Hr'|p c' Hp IH Hc Hsp]; [by apply Hr|by eapply reach_step].
+  Qed.
+
+  Lemma reach_in A roots c : reach A roots c → c ∈ roots ∨ c ∈ A.
+  Proof. destruct 1; [by left|by right]. Qed.
+
+  Lemma reach_nil A c : ¬ reach A [] c.
+  Proof. induction 1 as [r Hr|]; [by apply elem_of_nil in Hr|done]. Qed.
+
+  Lemma spends_output_of_iff (c p : N) :
+    spends_output_of U c p = true ↔ ∃ op, op ∈ tx_ins U c ∧ op.1 = p.
+  Proof.
+    unfold spends_output_of. rewrite existsb_exists. split.
+    - intros (op & Hop & Heq). exists op. split; [by apply elem_of_list_In|].
+      by apply bool_decide_eq_true in Heq.
+    - intros (op & Hop & Heq). exists op. split; [by apply elem_of_list_In|].
+      by apply bool_decide_eq_true.
+  Qed.
+
+  Context (Hwf : wf_universe U = true).
+
+  Lemma tx_ins_lookup k t : U !! k = Some t → tx_ins U k = t_ins t.
+  Proof. unfold tx_ins. by intros ->. Qed.
+
+  Lemma spends_rank (c p : N) : spends_output_of U c p = true → (p < c)%N.
+  Proof.
+    rewrite spends_output_of_iff. intros (op & Hop & <-).
+    unfold tx_ins in Hop. destruct (U !! c) as [tc|] eqn:Hc; [|by apply elem_of_nil in Hop].
+    apply wf_universe_tx in Hc; [|done].
+    apply wf_tx_unpack in Hc as (_ & _ & _ & _ & Hr). by apply Hr.
+  Qed.
+
+  Lemma reach_ge A (h c : N) : reach A [h] c → (h ≤ c)%N.
+  Proof.
+    induction 1 as [r Hr|p c' Hp IH Hc Hsp].
+    - apply elem_of_list_singleton in Hr as ->. lia.
+    - apply spends_rank in Hsp. lia.
+  Qed.
+
+  (** number of universe keys at or above [h]: bounds the recursion depth *)
+  Definition above (h : N) : nat := size (filter (λ k, (h ≤ k)%N) (dom U)).
+
+  Lemma above_le_size h : (above h ≤ size U)%nat.
+  Proof.
+    unfold above. rewrite <- (size_dom U).
+    apply subseteq_size. intros k Hk. by apply elem_of_filter in Hk as [_ ?].
+  Qed.
+
+  Lemma above_lt (h c : N) : is_Some (U !! h) → (h < c)%N → (above c < above h)%nat.
+  Proof.
+    intros Hh Hlt. unfold above. apply subset_size.
+    apply elem_of_dom in Hh.
+    split.
+    - intros k. rewrite !elem_of_filter. intros [? ?]. split; [lia|done].
+    - intros Hsub. assert (Hin : h ∈ filter (λ k, (c ≤ k)%N) (dom U)).
+      { apply Hsub. apply elem_of_filter. split; [lia|done]. }
+      apply elem_of_filter in Hin as [? _]. lia.
+  Qed.
+End reach.
+
+(** * (b) [remove_conflict] *)
+Section remove.
+  Context (U : gmap N tx) (Hwf : wf_universe U = true).
+
+  Definition A_in_U (A : gset N) : Prop := ∀ t, t ∈ A → is_Some (U !! t).
+
+  (** The mempool buckets describe the alive set [A]; the credits in [C] are
+      already deleted (outputs of transactions on the recursion stack). *)
+  Record PInv (s : store) (A : gset N) (C : gset (N * N)) : Prop := {
+    pi_unmined : ∀ t, is_Some (unmined s !! t) ↔ t ∈ A;
+    pi_mc : ∀ op a chg, unmined_credits s !! op = Some (a, chg) ↔
+              (op.1 ∈ A ∧ is_credited U op chg ∧ a = amount_of U op ∧ op ∉ C);
+    pi_mi : MIinv s (λ op u, u ∈ A ∧ op ∈ tx_ins U u);
+  }.
+
+  Lemma PInv_ext (s : store) (A A' : gset N) (C C' : gset (N * N)) :
+    (∀ c, c ∈ A ↔ c ∈ A') → (∀ op, op ∈ C ↔ op ∈ C') → PInv s A C → PInv s A' C'.
+  Proof.
+    intros HA HC HP.
+    assert (A = A') as <-. { apply leibniz_equiv. intros x. apply HA. }
+    assert (C = C') as <-. { apply leibniz_equiv. intros x. apply HC. }
+    done.
+  Qed.
+
+  Lemma PInv_delete_credit (s : store) (A : gset N) (C : gset (N * N)) (op0 : N * N) :
+    PInv s A C → PInv (set_unmined_credits (delete op0) s) A (C ∪ {[op0]}).
+  Proof.
+    intros [H1 H2 H3]. split; [done| |done].
+    intros op a chg. simpl. rewrite lookup_delete_Some, H2, not_elem_of_union, not_elem_of_singleton.
+    naive_solver.
+  Qed.
+
+  Definition rc_inner (fuel : nat) (acc : option store) (sp : N) : option store :=
+    match acc with
+    | None => None
+    | Some s' => match unmined s' !! sp with
+                 | None => Some s'
+                 | Some _ => remove_conflict U fuel sp s'
+                 end
+    end.
+
+  Definition rc_step_out (fuel : nat) (h : N) (acc : option store) (i : N) : option store :=
+    match acc with
+    | None => None
+    | Some s1 =>
+      match foldl (rc_inner fuel) (Some s1) (default [] (unmined_inputs s1 !! (h, i))) with
+      | None => None
+      | Some s3 => Some (set_unmined_credits (delete (h, i)) s3)
+      end
+    end.
+
+  Lemma remove_conflict_unfold fuel h s :
+    remove_conflict U (S fuel) h s =
+    match U !! h with
+    | None => None
+    | Some t =>
+      match foldl (rc_step_out fuel h) (Some s) (indices (t_outs t)) with
+      | None => None
+      | Some s4 =>
+        Some (set_unmined (delete h)
+                (foldl (λ s' op, delete_unmined_input op h s') s4 (t_ins t)))
+      end
+    end.
+  Proof. reflexivity. Qed.
+
+  (** specification of one (recursive) call *)
+  Definition rc_spec (fuel : nat) : Prop :=
+    ∀ (h : N) (s : store) (A : gset N) (C : gset (N * N)), (above U h < fuel)%nat → A_in_U A → PInv s A C → h ∈ A →
+      ∃ s' A', remove_conflict U fuel h s = Some s' ∧ PInv s' A' C ∧ same_rest s s' ∧
+               (∀ c, c ∈ A' ↔ c ∈ A ∧ ¬ reach U A [h] c).
+
+  (** loop invariant while [h] is being processed: [A] alive at entry, [Ac] alive now *)
+  Record J (A : gset N) (h : N) (Ac : gset N) : Prop := {
+    j_sub : Ac ⊆ A;
+    j_h : h ∈ Ac;
+    j_desc : ∀ c, c ∈ A → c ∉ Ac → reach U A [h] c;
+    j_closed : ∀ p c, p ∈ A → p ∉ Ac → c ∈ A → spends_output_of U c p = true → c ∉ Ac;
+  }.
+
+  Lemma inner_loop (fuel : nat) (A : gset N) (h : N) (C : gset (N * N)) :
+    rc_spec fuel → A_in_U A → (above U h < S fuel)%nat →
+    ∀ (l : list N) (s : store) (Ac : gset N),
+      (∀ sp, sp ∈ l → sp ∈ A ∧ spends_output_of U sp h = true) →
+      J A h Ac → PInv s Ac C →
+      ∃ s' Ac', foldl (rc_inner fuel) (Some s) l = Some s' ∧ PInv s' Ac' C ∧ same_rest s s' ∧
+                J A h Ac' ∧ Ac' ⊆ Ac ∧ ∀ sp, sp ∈ l → sp ∉ Ac'.
+  Proof.
+    intros IHf HAU Hab. induction l as [|sp l IHl]; intros s Ac Hl HJ HP.
+    - exists s, Ac. split; [done|]. split; [done|]. split; [apply same_rest_refl|].
+      split; [done|]. split; [done|]. intros sp Hsp. by apply elem_of_nil in Hsp.
+    - destruct (unmined s !! sp) as [[]|] eqn:Hm.
+      + (* still alive: recursive call *)
+        assert (HspAc : sp ∈ Ac). { apply (pi_unmined _ _ _ HP). by rewrite Hm. }
+        destruct (Hl sp) as [HspA Hsph]; [by left|].
+        assert (Hlt : (h < sp)%N) by by apply (spends_rank U Hwf).
+        assert (HhU : is_Some (U !! h)).
+        { apply HAU. apply (j_sub _ _ _ HJ), (j_h _ _ _ HJ). }
+        destruct (IHf sp s Ac C) as (s1 & A1 & Hrc & HP1 & Hsr1 & HA1).
+        { pose proof (above_lt U h sp HhU Hlt). lia. }
+        { intros t Ht. apply HAU. by apply (j_sub _ _ _ HJ). }
+        { done. }
+        { done. }
+        assert (HJ1 : J A h A1).
+        { destruct HJ as [Hsub Hh Hdesc Hclosed]. split.
+          - intros c Hc. apply HA1 in Hc as [Hc _]. by apply Hsub.
+          - apply HA1. split; [done|]. intros Hr. apply (reach_ge U Hwf) in Hr. lia.
+          - intros c HcA HcA1. destruct (decide (c ∈ Ac)) as [HcAc|HcAc]; [|by apply Hdesc].
+            destruct (reach_dec U Ac [sp] c) as [Hr|Hr].
+            + apply (reach_trans U A [h] [sp]).
+              * intros r Hr'. apply elem_of_list_singleton in Hr' as ->.
+                eapply reach_step; [apply reach_root; by left|done|done].
+              * by apply (reach_mono U Ac A [sp] [sp]).
+            + exfalso. apply HcA1. by apply HA1.
+          - intros p c HpA HpA1 HcA Hsp HcA1. apply HA1 in HcA1 as [HcAc Hnr].
+            destruct (decide (p ∈ Ac)) as [HpAc|HpAc].
+            + destruct (reach_dec U Ac [sp] p) as [Hr|Hr].
+              * apply Hnr. by eapply reach_step.
+              * apply HpA1. by apply HA1.
+            + by apply (Hclosed p c). }
+        destruct (IHl s1 A1) as (s' & Ac' & Hf & HP' & Hsr' & HJ' & Hsub' & Hdone).
+        { intros sp' Hsp'. apply Hl. by right. }
+        { done. }
+        { done. }
+        assert (HA1sub : A1 ⊆ Ac). { intros c Hc. by apply HA1 in Hc as [? _]. }
+        exists s', Ac'. split.
+        { cbn [foldl]. unfold rc_inner at 2. by rewrite Hm, Hrc. }
+        split; [done|]. split; [by eapply same_rest_trans|]. split; [done|].
+        split; [set_solver|].
+        intros sp' Hsp'. apply elem_of_cons in Hsp' as [->|Hsp']; [|by apply Hdone].
+        intros Hin. apply Hsub', HA1 in Hin as [_ Hnr]. apply Hnr. apply reach_root. by left.
+      + (* already removed through another path *)
+        assert (HspAc : sp ∉ Ac).
+        { intros Hin. apply (pi_unmined _ _ _ HP) in Hin. rewrite Hm in Hin. by destruct Hin. }
+        destruct (IHl s Ac) as (s' & Ac' & Hf & HP' & Hsr' & HJ' & Hsub' & Hdone).
+        { intros sp' Hsp'. apply Hl. by right. }
+        { done. }
+        { done. }
+        exists s', Ac'. split.
+        { cbn [foldl]. unfold rc_inner at 2. by rewrite Hm. }
+        split; [done|]. split; [done|]. split; [done|]. split; [done|].
+        intros sp' Hsp'. apply elem_of_cons in Hsp' as [->|Hsp']; [|by apply Hdone].
+        intros Hin. by apply HspAc, Hsub'.
+  Qed.
+
+  Lemma outer_loop (fuel : nat) (A : gset N) (h : N) :
+    rc_spec fuel → A_in_U A → (above U h < S fuel)%nat →
+    ∀ (is : list N) (s : store) (Ac : gset N) (C : gset (N * N)),
+      J A h Ac → PInv s Ac C →
+      ∃ s' Ac', foldl (rc_step_out fuel h) (Some s) is = Some s' ∧
+                PInv s' Ac' (C ∪ list_to_set ((λ i, (h, i)) <$> is)) ∧ same_rest s s' ∧
+                J A h Ac' ∧ Ac' ⊆ Ac ∧
+                ∀ i c, i ∈ is → c ∈ A → (h, i) ∈ tx_ins U c → c ∉ Ac'.
+  Proof.
+    intros IHf HAU Hab. induction is as [|i is IHis]; intros s Ac C HJ HP.
+    - exists s, Ac. split; [done|]. split.
+      { eapply PInv_ext; [done| |exact HP]. intros op. set_solver. }
+      split; [apply same_rest_refl|]. split; [done|]. split; [done|].
+      intros i c Hi. by apply elem_of_nil in Hi.
+    - set (l := default [] (unmined_inputs s !! (h, i))).
+      assert (Hl : ∀ sp, sp ∈ l → sp ∈ Ac ∧ (h, i) ∈ tx_ins U sp).
+      { intros sp Hsp. unfold l in Hsp.
+        destruct (unmined_inputs s !! (h, i)) as [l0|] eqn:Hmi; simpl in Hsp.
+        - destruct (pi_mi _ _ _ HP) as [Hs _]. destruct (Hs _ _ Hmi) as (_ & _ & Hel).
+          by apply Hel.
+        - by apply elem_of_nil in Hsp. }
+      destruct (inner_loop fuel A h C IHf HAU Hab l s Ac) as (s3 & A3 & Hf3 & HP3 & Hsr3 & HJ3 & Hsub3 & Hdone3).
+      { intros sp Hsp. apply Hl in Hsp as [HspAc Hin]. split; [by apply (j_sub _ _ _ HJ)|].
+        apply spends_output_of_iff. by exists (h, i). }
+      { done. }
+      { done. }
+      apply (PInv_delete_credit _ _ _ (h, i)) in HP3.
+      destruct (IHis _ A3 _ HJ3 HP3) as (s' & Ac' & Hf & HP' & Hsr' & HJ' & Hsub' & Hprog).
+      exists s', Ac'. split.
+      { cbn [foldl]. unfold rc_step_out at 2. fold l. by rewrite Hf3. }
+      split.
+      { eapply PInv_ext; [done| |exact HP']. intros op. rewrite fmap_cons. set_solver. }
+      split.
+      { eapply same_rest_trans; [exact Hsr3|]. eapply same_rest_trans; [|exact Hsr'].
+        apply same_rest_set_unmined_credits. }
+      split; [done|]. split; [set_solver|].
+      intros i' c Hi' HcA Hin. apply elem_of_cons in Hi' as [->|Hi']; [|by apply (Hprog i' c)].
+      intros HcAc'. apply Hsub' in HcAc'. apply (Hdone3 c); [|done].
+      assert (HcAc : c ∈ Ac) by by apply Hsub3.
+      destruct (pi_mi _ _ _ HP) as [Hs Hc].
+      destruct (Hc (h, i) c) as [l0 Hl0]; [done|].
+      unfold l. rewrite Hl0. simpl. destruct (Hs _ _ Hl0) as (_ & _ & Hel). by apply Hel.
+  Qed.
+
+  Lemma foldl_delete_unmined_input_unmined (l : list (N * N)) (h : N) (s : store) :
+    unmined (foldl (λ s' op, delete_unmined_input op h s') s l) = unmined s.
+  Proof.
+    revert s. induction l as [|op l IH]; intros s; simpl; [done|].
+    by rewrite IH, delete_unmined_input_unmined.
+  Qed.
+  Lemma foldl_delete_unmined_input_unmined_credits (l : list (N * N)) (h : N) (s : store) :
+    unmined_credits (foldl (λ s' op, delete_unmined_input op h s') s l) = unmined_credits s.
+  Proof.
+    revert s. induction l as [|op l IH]; intros s; simpl; [done|].
+    by rewrite IH, delete_unmined_input_unmined_credits.
+  Qed.
+  Lemma foldl_delete_unmined_input_same_rest (l : list (N * N)) (h : N) (s : store) :
+    same_rest s (foldl (λ s' op, delete_unmined_input op h s') s l).
+  Proof.
+    revert s. induction l as [|op l IH]; intros s; simpl; [apply same_rest_refl|].
+    eapply same_rest_trans; [apply same_rest_delete_unmined_input|apply IH].
+  Qed.
+
+  Lemma final_step (A : gset N) (h : N) (t : tx) (s4 : store) (An : gset N) (C : gset (N * N)) :
+    A_in_U A → U !! h = Some t → J A h An →
+    PInv s4 An (C ∪ list_to_set ((λ i, (h, i)) <$> indices (t_outs t))) →
+    (∀ i c, i ∈ indices (t_outs t) → c ∈ A → (h, i) ∈ tx_ins U c → c ∉ An) →
+    PInv (set_unmined (delete h) (foldl (λ s' op, delete_unmined_input op h s') s4 (t_ins t)))
+         (An ∖ {[h]}) C ∧
+    ∀ c, c ∈ An ∖ {[h]} ↔ c ∈ A ∧ ¬ reach U A [h] c.
+  Proof.
+    intros HAU Ht HJ HP Hprog.
+    pose proof (ins_in_range_of_wf U Hwf) as Hrange.
+    pose proof (wf_tx_unpack _ _ (wf_universe_tx U h t Hwf Ht)) as (Hid & _ & _ & Hcr & _).
+    split.
+    - destruct HP as [H1 H2 H3]. split.
+      + intros x. simpl. rewrite foldl_delete_unmined_input_unmined, lookup_delete_is_Some, H1.
+        set_solver.
+      + intros op a chg. simpl. rewrite foldl_delete_unmined_input_unmined_credits, H2.
+        split.
+        * intros (HopA & Hcred & Ha & HnC).
+          apply not_elem_of_union in HnC as [HnC HnL].
+          split; [|done]. apply elem_of_difference. split; [done|].
+          intros Heq. apply elem_of_singleton in Heq. apply HnL.
+          apply elem_of_list_to_set, elem_of_list_fmap. exists op.2.
+          split; [destruct op; simpl in *; congruence|].
+          apply elem_of_indices. unfold is_credited, creds_of in Hcred.
+          rewrite Heq, Ht in Hcred. apply (Hcr _ Hcred).
+        * intros (HopA & Hcred & Ha & HnC).
+          apply elem_of_difference in HopA as [HopA Hne].
+          split; [done|]. split; [done|]. split; [done|].
+          apply not_elem_of_union. split; [done|].
+          intros Hin. apply elem_of_list_to_set, elem_of_list_fmap in Hin as (i & -> & _).
+          apply Hne. by apply elem_of_singleton.
+      + eapply MIinv_same_mi; [|eapply MIinv_ext; [|apply (MIinv_delete_list (t_ins t) h), H3]].
+        { done. }
+        intros op u. simpl. rewrite elem_of_difference, not_elem_of_singleton. split.
+        * intros [[Hu Hop] Hn]. split; [|done]. split; [done|].
+          intros ->. apply Hn. split; [|done]. by rewrite <- (tx_ins_lookup U h t Ht).
+        * intros [[Hu Hne] Hop]. split; [done|]. by intros [_ ?].
+    - assert (Hr : ∀ c, reach U A [h] c → c ∉ An ∨ c = h).
+      { induction 1 as [r Hr|p c Hp IH Hc Hsp].
+        - right. by apply elem_of_list_singleton in Hr.
+        - left. destruct IH as [Hp'| ->].
+          + apply (j_closed _ _ _ HJ p c); try done.
+            destruct (reach_in U _ _ _ Hp) as [Hp''|]; [|done].
+            apply elem_of_list_singleton in Hp'' as ->.
+            apply (j_sub _ _ _ HJ), (j_h _ _ _ HJ).
+          + apply spends_output_of_iff in Hsp as (op & Hop & Hop1).
+            destruct op as [x i]; simpl in Hop1; subst x.
+            apply (Hprog i c); [|done|done]. apply elem_of_indices.
+            destruct (HAU c Hc) as [tc Htc]. rewrite (tx_ins_lookup U c tc Htc) in Hop.
+            apply (Hrange c tc (h, i) t Htc Hop Ht). }
+      intros c. rewrite elem_of_difference, not_elem_of_singleton. split.
+      + intros [HcAn Hne]. split; [by apply (j_sub _ _ _ HJ)|].
+        intros Hrc. by destruct (Hr c Hrc).
+      + intros [HcA Hnr]. split.
+        * destruct (decide (c ∈ An)) as [|Hn]; [done|]. exfalso. by apply Hnr, (j_desc _ _ _ HJ).
+        * intros ->. apply Hnr, reach_root. by left.
+  Qed.
+
+  Lemma rc_spec_all fuel : rc_spec fuel.
+  Proof.
+    induction fuel as [|fuel IH]; intros h s A C Hab HAU HP Hh; [lia|].
+    rewrite remove_conflict_unfold.
+    destruct (HAU h Hh) as [t Ht]. rewrite Ht.
+    assert (HJ0 : J A h A).
+    { split; [done|done|by intros c ? ?|by intros p c ? ?]. }
+    destruct (outer_loop fuel A h IH HAU Hab (indices (t_outs t)) s A C HJ0 HP)
+      as (s4 & An & Hf & HP4 & Hsr4 & HJ4 & _ & Hprog).
+    rewrite Hf.
+    destruct (final_step A h t s4 An C HAU Ht HJ4 HP4 Hprog) as [HP' Hchar].
+    eexists _, (An ∖ {[h]}). split; [done|]. split; [done|]. split; [|done].
+    eapply same_rest_trans; [exact Hsr4|].
+    eapply same_rest_trans; [apply (foldl_delete_unmined_input_same_rest (t_ins t) h)|].
+    apply same_rest_set_unmined.
+  Qed.
+End remove.
+
+(** * From [Inv] to [PInv] and back *)
+
+Definition with_unconf (F : facts) (A : gset N) : facts :=
+  {| f_conf := f_conf F; f_unconf := A; f_leases := f_leases F |}.
+
+Lemma facts_eq (F G : facts) :
+  f_conf F = f_conf G → f_unconf F = f_unconf G → f_leases F = f_leases G → F = G.
+Proof. destruct F, G; simpl; congruence. Qed.
+
+Section assemble.
+  Context (U : gmap N tx).
+
+  Lemma PInv_of_Inv (s : store) (F : facts) : Inv U s F → PInv U s (f_unconf F) ∅.
+  Proof.
+    intros HI. split.
+    - exact (inv_unmined U s F HI).
+    - intros op a chg. rewrite (inv_unmined_credits U s F HI).
+      pose proof (not_elem_of_empty (C:=gset (N * N)) op). naive_solver.
+    - split.
+      + intros op l Hl. exact (inv_unmined_inputs_sound U s F HI op l Hl).
+      + intros op u Hu. exact (inv_unmined_inputs_complete U s F HI op u Hu).
+  Qed.
+
+  (** only the clauses about the three mempool buckets depend on [f_unconf] *)
+  Lemma Inv_with_unconf (s s' : store) (F : facts) (A' : gset N) :
+    Inv U s F → same_rest s s' → facts_wf U (with_unconf F A') → PInv U s' A' ∅ →
+    Inv U s' (with_unconf F A').
+  Proof.
+    intros HI (Hb & Ht & Hc & Hu & Hd & Hl & Hbal) Hwf' [P1 P2 [P3 P4]].
+    split.
+    - exact Hwf'.
+    - rewrite Hb. exact (inv_blocks_sound U s F HI).
+    - rewrite Hb. exact (inv_blocks_complete U s F HI).
+    - rewrite Ht. exact (inv_txrecs U s F HI).
+    - exact P1.
+    - rewrite Hc. exact (inv_credits_sound U s F HI).
+    - rewrite Hc. exact (inv_credits_complete U s F HI).
+    - rewrite Hu. exact (inv_unspent U s F HI).
+    - rewrite Hd. exact (inv_debits_sound U s F HI).
+    - rewrite Hd. exact (inv_debits_complete U s F HI).
+    - intros op a chg. rewrite P2.
+      pose proof (not_elem_of_empty (C:=gset (N * N)) op). simpl. naive_solver.
+    - intros op l Hl'. exact (P3 op l Hl').
+    - intros op u Hu'. exact (P4 op u Hu').
+    - rewrite Hbal, Hu. exact (inv_bal U s F HI).
+    - rewrite Hl. exact (inv_locked U s F HI).
+  Qed.
+
+  Lemma facts_wf_shrink (F : facts) (A' : gset N) :
+    facts_wf U F → A' ⊆ f_unconf F → facts_wf U (with_unconf F A').
+  Proof.
+    intros [W1 W2 W3 W4 W5 W6 W7 W8] Hsub. split; simpl.
+    - intros t [Ht|Ht]; apply W1; [by left|right; by apply Hsub].
+    - intros t Ht Hin. apply (W2 t Ht). by apply Hsub.
+    - exact W3.
+    - intros op m u Hm [Hu Hop]. apply (W4 op m u Hm). split; [by apply Hsub|done].
+    - intros m h bh op Hm Hop [Hk|Hk]; apply (W5 m h bh op Hm Hop); [by left|right; by apply Hsub].
+    - intros t Ht. apply W6. by apply Hsub.
+    - exact W7.
+    - exact W8.
+  Qed.
+
+  (** ** [remove_unconf_with_descendants] through [depends_on] *)
+
+  Lemma rm_unconf_elem (F : facts) (roots : list N) (c : N) :
+    c ∈ f_unconf (remove_unconf_with_descendants U F roots) ↔
+    c ∈ f_unconf F ∧ ¬ depends_on U F roots c.
+  Proof.
+    unfold remove_unconf_with_descendants. simpl.
+    rewrite elem_of_filter. rewrite (descendants_ok U F roots c). tauto.
+  Qed.
+
+  Lemma rm_conf (F : facts) roots : f_conf (remove_unconf_with_descendants U F roots) = f_conf F.
+  Proof. done. Qed.
+  Lemma rm_leases (F : facts) roots : f_leases (remove_unconf_with_descendants U F roots) = f_leases F.
+  Proof. done. Qed.
+
+  Lemma rm_eq_with_unconf (F : facts) (roots : list N) (A' : gset N) :
+    (∀ c, c ∈ A' ↔ c ∈ f_unconf F ∧ ¬ depends_on U F roots c) →
+    remove_unconf_with_descendants U F roots = with_unconf F A'.
+  Proof.
+    intros HA. apply facts_eq; [done| |done].
+    apply leibniz_equiv. intros c. rewrite rm_unconf_elem. simpl. by rewrite HA.
+  Qed.
+End assemble.
+
+Lemma remove_conflict_ok U : remove_conflict_correct U.
+Proof.
+  intros s F t Hwf HI Ht.
+  destruct (rc_spec_all U Hwf (fuel_of U) t s (f_unconf F) ∅) as (s' & A' & Hrc & HP' & Hsr & HA').
+  - unfold fuel_of. pose proof (above_le_size U t). lia.
+  - intros x Hx. apply (fw_in_universe U F (inv_wf U s F HI)). by right.
+  - by apply PInv_of_Inv.
+  - done.
+  - exists s'. split; [done|].
+    rewrite (rm_eq_with_unconf U F [t] A').
+    + apply (Inv_with_unconf U s s' F A'); [done|done| |done].
+      apply facts_wf_shrink; [exact (inv_wf U s F HI)|].
+      intros c Hc. by apply HA' in Hc as [? _].
+    + intros c. rewrite HA'. by rewrite depends_on_reach.
+Qed.
+
+Lemma step_preserves_abandon U t : step_preserves U (Abandon t).
+Proof.
+  intros m sm Hwf HI Hclk Hok. simpl in Hok. apply bool_decide_eq_true in Hok.
+  destruct (remove_conflict_ok U (st m) (fs sm) t Hwf HI Hok) as (s' & Hrc & HI').
+  cbn [step]. rewrite Hrc. cbn. split; [done|]. split; [exact HI'|done].
+Qed.
